@@ -733,3 +733,79 @@ def sv1(proj, rep, modules):
                     rep.ok('SV1', fi.qual, f'`{ast.unparse(x)}`: feasible unless the solver reports +-inf', m, x)
     rep.count('SV1.sites', n)
     return n
+
+
+# ================================================================= F4 softplus stability
+RULE_F4 = ('F4: a hand-written softplus / log-sum-exp `log1p(exp(E))`, `log(1 + exp(E))` evaluates exp only at a non-positive argument '
+           '(E = -|x|, -sign(x)*x, x - max(x), minimum(x, 0)): with E = x or -x of an unbounded parameter the value cancels to exactly 0 '
+           '(x < -37 in float64: not a positive real) or overflows to inf (|x| > 88.7 in float32), inside the stated |theta| <= 1e2.')
+
+
+def _nonpositive_form(fn, e, depth=0):
+    """True if e is of a recognised non-positive form; False if it is +-(a bare parameter/array name); None otherwise"""
+    t = ast.unparse(e).replace(' ', '')
+    if isinstance(e, ast.UnaryOp) and isinstance(e.op, ast.USub):
+        inner = e.operand
+        ti = ast.unparse(inner).replace(' ', '')
+        if isinstance(inner, ast.Call) and ti.split('(')[0].split('.')[-1] in ('abs', 'absolute', 'fabs'):
+            return True
+        if isinstance(inner, ast.BinOp) and isinstance(inner.op, ast.Mult):
+            # -s*x with s = sign(x)
+            for a, b in ((inner.left, inner.right), (inner.right, inner.left)):
+                sa = a
+                if isinstance(a, ast.Name):
+                    asg = assignments(fn).get(a.id, [])
+                    if len(asg) == 1:
+                        sa = asg[0][0]
+                if isinstance(sa, ast.Call) and ast.unparse(sa.func).split('.')[-1] == 'sign' and sa.args \
+                        and ast.unparse(sa.args[0]) == ast.unparse(b):
+                    return True
+        if isinstance(inner, ast.Name):
+            return False
+        return None
+    if isinstance(e, ast.Name):
+        return False
+    if isinstance(e, ast.BinOp) and isinstance(e.op, ast.Mult):
+        # (-s)*x  ==  -(s*x)
+        for a, b in ((e.left, e.right), (e.right, e.left)):
+            if isinstance(a, ast.UnaryOp) and isinstance(a.op, ast.USub):
+                return _nonpositive_form(fn, ast.UnaryOp(op=ast.USub(), operand=ast.BinOp(left=a.operand, op=ast.Mult(), right=b)), depth + 1)
+    if isinstance(e, ast.BinOp) and isinstance(e.op, ast.Sub) and 'max' in ast.unparse(e.right):
+        return True
+    if isinstance(e, ast.Call) and t.split('(')[0].split('.')[-1] in ('minimum', 'fmin') and any(isinstance(a, ast.Constant) and a.value == 0 for a in e.args):
+        return True
+    return None
+
+
+def f4(proj, rep, modules):
+    rep.rule('F4', RULE_F4)
+    n = 0
+    for mq in modules:
+        m = proj.mod(mq)
+        rep.touch(m)
+        for fi in [f for f in proj.funcs.values() if f.module is m]:
+            for c in own_nodes(fi.node):
+                if not isinstance(c, ast.Call) or not c.args:
+                    continue
+                name = ast.unparse(c.func).split('.')[-1]
+                E = None
+                if name == 'log1p' and isinstance(c.args[0], ast.Call) and ast.unparse(c.args[0].func).split('.')[-1] == 'exp' and c.args[0].args:
+                    E = c.args[0].args[0]
+                elif name == 'log' and isinstance(c.args[0], ast.BinOp) and isinstance(c.args[0].op, ast.Add):
+                    for a, b in ((c.args[0].left, c.args[0].right), (c.args[0].right, c.args[0].left)):
+                        if isinstance(a, ast.Constant) and a.value == 1 and isinstance(b, ast.Call) and ast.unparse(b.func).split('.')[-1] == 'exp' and b.args:
+                            E = b.args[0]
+                if E is None:
+                    continue
+                v = _nonpositive_form(fi.node, E)
+                if v is True:
+                    n += 1
+                    rep.ok('F4', fi.qual, f'`{ast.unparse(c)[:60]}`: exp at the non-positive argument `{ast.unparse(E)}`', m, c)
+                elif v is False:
+                    n += 1
+                    rep.violation('F4', fi.qual, f'`{ast.unparse(c)[:70]}`: exp is evaluated at `{ast.unparse(E)}`, unbounded above: the softplus cancels to 0 / '
+                                  f'overflows to inf for strongly negative (positive) input inside |theta| <= 1e2', m, c)
+                else:
+                    rep.undecided('F4', fi.qual, f'`{ast.unparse(c)[:70]}`: sign of `{ast.unparse(E)}` not derivable', m, c)
+    rep.count('F4.sites', n)
+    return n
